@@ -3,9 +3,9 @@ package main
 import (
 	"bufio"
 	"encoding/json"
-	"hash/crc32"
 	"flag"
 	"fmt"
+	"hash/crc32"
 	"os"
 	"runtime"
 	"strconv"
@@ -137,6 +137,17 @@ func runEvent(inst *Instance, pre M, msg M, faults []bool) M {
 	if gets(msg, "type") == "Batch" {
 		return runBatchEvent(inst, msg, faults)
 	}
+	if gets(msg, "type") == "Simulate" {
+		// execute on a branch that is always discarded; report the outcome under the Simulate message
+		inst.discard = true
+		ev := runEvent(inst, pre, getm(msg, "tx"), faults)
+		inst.discard = false
+		ev["msg"] = msg
+		obs := getm(ev, "obs")
+		delete(obs, "inner")
+		obs["vas"] = "na"
+		return ev
+	}
 	typeURL, wire := inst.Concretise(msg)
 	vas := inst.DirectVerify(pre, msg)
 	r := inst.RunTx(typeURL, wire, faults)
@@ -221,7 +232,6 @@ func toAny(s []string) []any {
 	}
 	return out
 }
-
 
 // cmdEdges: every input line is {pre, msg, faults}; materialise pre, run msg, emit a one-event history.
 func cmdEdges(tab *SymTab, rd *os.File, bw *bufio.Writer, workers int) {
